@@ -6,7 +6,7 @@ import importlib
 import json
 import os
 
-from sa.core import VERIF, AnalysisError
+from sa.core import VERIF, AnalysisError, walk_no_nested
 
 # (function, parameter) pairs that are unused on the pinned tree, confirmed by reading: interface uniformity
 # (all back ends / all elimination steps share one signature) or documented "not yet implemented".
@@ -611,6 +611,77 @@ def arg_names(repo, col, prop):
     col.info["calls_with_named_arguments_checked"] = n
 
 
+ROLE_PAIRS = [("pre", "post"), ("sink", "source"), ("parent", "child"), ("par", "child"), ("upper", "lower")]
+ROLE_CROSS_OK = {
+    ("compute_children_and_parents", "child_belongs_to_branchpoint"):
+        "the branch point of a child IS the rank of its parent: computed from the parent indices by design",
+}
+
+
+def role_tokens(repo, col, prop):
+    """Names state roles.  Something named for one side of a pair (pre/post, sink/source, parent/child, upper/lower) that is
+    computed ONLY from things named for the other side is a crossed role: `pre_rows = post_cell_view...`,
+    `new_rows["pre_locs"] = post_loc`, `f(pre_inds=post_inds)`.  On the pinned tree this happens once (reviewed, listed)."""
+    import re
+    R = f"R-{prop}-rolenames"
+    sc, ents, _ = scope(repo, prop)
+
+    def toks_of(node):
+        out = set()
+        for x in ast.walk(node):
+            if isinstance(x, ast.Name):
+                out |= set(re.split(r"[_\W]+", x.id.lower()))
+            elif isinstance(x, ast.Attribute):
+                out |= set(re.split(r"[_\W]+", x.attr.lower()))
+            elif isinstance(x, ast.Constant) and isinstance(x.value, str) and " " not in x.value and len(x.value) < 40:
+                out |= set(re.split(r"[_\W]+", x.value.lower()))
+            elif isinstance(x, ast.arg):
+                out |= set(re.split(r"[_\W]+", x.arg.lower()))
+        return out
+
+    def crossed(t_toks, v_toks):
+        for a, b in ROLE_PAIRS:
+            for p_, q_ in ((a, b), (b, a)):
+                if p_ in t_toks and q_ not in t_toks and q_ in v_toks and p_ not in v_toks:
+                    return p_, q_
+        return None
+
+    n = 0
+    for fi in repo.all_functions():
+        if (fi.file, fi.qual) not in sc or fi.file in SKIP_FILES:
+            continue
+        for node in walk_no_nested(fi.node):
+            pairs = []
+            if isinstance(node, (ast.Assign, ast.AnnAssign, ast.AugAssign)) and getattr(node, "value", None) is not None:
+                tg = node.targets if isinstance(node, ast.Assign) else [node.target]
+                tt = set()
+                for t_ in tg:
+                    tt |= toks_of(t_)
+                pairs.append((tt, toks_of(node.value), node, ast.unparse(tg[0])[:40]))
+            elif isinstance(node, ast.Call):
+                for k in node.keywords:
+                    if k.arg:
+                        pairs.append((set(re.split(r"[_\W]+", k.arg.lower())), toks_of(k.value), node, k.arg))
+            elif isinstance(node, ast.Dict):
+                for k, v in zip(node.keys, node.values):
+                    if isinstance(k, ast.Constant) and isinstance(k.value, str) and not (isinstance(v, ast.Constant) and isinstance(v.value, str)):  # a NAME-to-NAME table (rename(columns=...)) states a swap on purpose
+                        pairs.append((set(re.split(r"[_\W]+", k.value.lower())), toks_of(v), node, repr(k.value)))
+            for tt, vt, nd, what in pairs:
+                if not any(a in tt or b in tt for a, b in ROLE_PAIRS):
+                    continue
+                n += 1
+                c_ = crossed(tt, vt)
+                why = ROLE_CROSS_OK.get((fi.name, what)) if c_ else None
+                if c_ and not why:
+                    col.bad(R, fi, f"{fi.qual}: `{what}` is computed from quantities of its own role",
+                            f"`{ast.unparse(nd)[:90]}`: `{what}` is named for `{c_[0]}` but is computed only from `{c_[1]}` quantities: the two "
+                            f"roles are crossed", node=nd)
+                else:
+                    col.ok(R, fi, f"{fi.qual}: `{what}` is computed from quantities of its own role", why or "", node=nd)
+    col.rule(R, "quantities named for one role (pre/post, sink/source, parent/child, upper/lower) are not computed from the other", 0)
+    col.info["role_named_bindings_checked"] = n
+
+
 def must_stores(repo, col, prop):
     """Stores that re-establish an invariant are unconditional (table MUST_STORE in rules/mustcall_table.py)."""
     from .mustcall_table import MUST_STORE
@@ -653,5 +724,6 @@ def run_all(prop, repo, col, tier):
     not_forwarded(repo, col, prop)
     must_stores(repo, col, prop)
     arg_names(repo, col, prop)
+    role_tokens(repo, col, prop)
     if pending is not None:
         raise pending
